@@ -187,12 +187,40 @@ func (c *census) fresh(e ast.Expr) bool {
 		return c.fresh(x.X)
 	case *ast.Ident:
 		return x.Name == "nil"
-	case *ast.CompositeLit:
-		// a literal slice / array of bytes; struct literals are looked at field by field elsewhere
-		if t := c.info.TypeOf(x); t != nil {
-			_, isStruct := t.Underlying().(*types.Struct)
-			return !isStruct
+	case *ast.UnaryExpr: // &T{...}
+		if x.Op == token.AND {
+			return c.fresh(x.X)
 		}
+	case *ast.CompositeLit:
+		// a literal slice / array of bytes is fresh; a struct literal is fresh when every field that can hold bytes is
+		// (its fields are still looked at one by one as stores)
+		t := c.info.TypeOf(x)
+		if t == nil {
+			return false
+		}
+		st, isStruct := t.Underlying().(*types.Struct)
+		if !isStruct {
+			return true
+		}
+		for i, el := range x.Elts {
+			val, ft := el, types.Type(nil)
+			if kv, ok := el.(*ast.KeyValueExpr); ok {
+				val = kv.Value
+				if id, ok := kv.Key.(*ast.Ident); ok {
+					for j := 0; j < st.NumFields(); j++ {
+						if st.Field(j).Name() == id.Name {
+							ft = st.Field(j).Type()
+						}
+					}
+				}
+			} else if i < st.NumFields() {
+				ft = st.Field(i).Type()
+			}
+			if ft != nil && holdsBytes(ft, map[types.Type]bool{}) && !c.fresh(val) {
+				return false
+			}
+		}
+		return true
 	case *ast.CallExpr:
 		name := ""
 		switch f := x.Fun.(type) {
@@ -289,7 +317,7 @@ func (c *census) walk(body ast.Node) {
 					val = kv.Value
 				}
 				if ft != nil && holdsBytes(ft, map[types.Type]bool{}) && !c.fresh(val) {
-					c.add("lit ", typeName(t)+"."+name, el.Pos())
+					c.add("", typeName(t)+"."+name, el.Pos()) // same key as an assignment to the field: x.f = v and T{f: v} are one kind
 				}
 			}
 		case *ast.SendStmt:
